@@ -3,36 +3,27 @@
  *
  *  secp256k1_gej_add_ge   ASSUMED oracle (group law).  Log: number of calls, the infinity flag of
  *                         the latest result (these two are named verif_c04_* because the loop invariant
- *                         in ec_pubkey_combine refers to them), and for the WATCHED call number g_add_watch
- *                         (never assigned by code or contracts) the affine operand that was added.
- *  secp256k1_hsort        frame + ARGUMENT LOG only; used by C04.sort_api.  Its functional contract
- *                         ("output is a sorted permutation of the count elements") is checked on the
- *                         real body by C04.hsort_body (bounded) - the log is what ties the API to it. */
+ *                         in ec_pubkey_combine refers to them), and the number of calls whose operand equals a
+ *                         WATCHED point (calls identified by value, not by ordinal).
+ *  secp256k1_hsort        frame + ARGUMENT LOG only; used by C04.sort_api; listed as ASSUMED there: that it
+ *                         returns a sorted permutation is checked on the real body only for count <= 5
+ *                         (C04.hsort_body, bounded) plus the call structure for every count (C04.hsort_struct). */
 #ifndef VERIF_ASSUMED_C04_H
 #define VERIF_ASSUMED_C04_H
 #include "assumed.h"
 
 size_t verif_c04_gi;   /* ghost index named by the loop invariants in ec_pubkey_sort / ec_pubkey_combine; never assigned by code */
-size_t verif_c04_add_n; int verif_c04_add_last_inf; size_t g_add_watch; int g_add_hit; secp256k1_fe g_add_bx, g_add_by; int g_add_binf;
+size_t verif_c04_add_n; int verif_c04_add_last_inf;
+/* WATCH (set by the harness, never assigned by code or contracts): an affine operand, as limbs; the contract counts
+ * the additions whose operand b equals it - calls are identified by operand VALUE, not by call number */
+secp256k1_fe g_add_wx, g_add_wy; size_t g_add_match;
 static void secp256k1_gej_add_ge(secp256k1_gej *r, const secp256k1_gej *a, const secp256k1_ge *b)
 __CPROVER_requires(__CPROVER_w_ok(r, sizeof(*r)) && __CPROVER_r_ok(a, sizeof(*a)) && __CPROVER_r_ok(b, sizeof(*b)))
-#ifdef C04_ADD_LOOP_PRE
-/* loop-contract unit (C04.pubkey_combine): the accumulator's range is the oracle's own postcondition carried round
- * the loop, not a fact about the caller; it is checked with the full precondition in C04.pubkey_combine_small */
-__CPROVER_requires(ge_ok(b))
-#else
 __CPROVER_requires(gej_ok(a) && ge_ok(b))
-#endif
+__CPROVER_assigns(*r, verif_c04_add_n, verif_c04_add_last_inf, g_add_match)
 __CPROVER_ensures(gej_ok(r))
 __CPROVER_ensures(verif_c04_add_n == __CPROVER_old(verif_c04_add_n) + 1 && verif_c04_add_last_inf == r->infinity)
-#ifdef C04_ADD_LOOP_PRE
-__CPROVER_assigns(*r, verif_c04_add_n, verif_c04_add_last_inf)
-#else
-__CPROVER_assigns(*r, verif_c04_add_n, verif_c04_add_last_inf, g_add_hit, g_add_bx, g_add_by, g_add_binf)
-__CPROVER_ensures(__CPROVER_old(verif_c04_add_n) == g_add_watch
-    ? (g_add_hit == 1 && FE_EQ_OLD(g_add_bx, b->x) && FE_EQ_OLD(g_add_by, b->y) && g_add_binf == __CPROVER_old(b->infinity))
-    : (g_add_hit == __CPROVER_old(g_add_hit) && FE_KEEP(g_add_bx) && FE_KEEP(g_add_by) && g_add_binf == __CPROVER_old(g_add_binf)))
-#endif
+__CPROVER_ensures(g_add_match == __CPROVER_old(g_add_match) + ((FE_EQ_OLD(g_add_wx, b->x) && FE_EQ_OLD(g_add_wy, b->y) && !__CPROVER_old(b->infinity)) ? 1 : 0))
 ;
 
 int g_hsort_n; const void *g_hsort_ptr; size_t g_hsort_count, g_hsort_size; const void *g_hsort_data;
